@@ -490,4 +490,103 @@ theorem dense_decode_error (I : StoreI GS) (hI : DenseAdds I) (IL : StoreI GLow)
 
 end dense
 
+/-! ## E. `SparseStore.MergeWith(store Store)` for an argument of ANY store type -/
+
+section sparseMerge
+open DDS.GenSparse DDS.Gen.Sparse DDS.Gen.SparseMerge
+
+/-- bins with rational weights, as `ForEach` hands them over (`float64`) -/
+def finBins (l : List (Int × Rat)) : List (Int × F64) := l.map (fun p => (p.1, F64.fin p.2))
+
+/-- the receiver after `AddWithCount` of every bin, in order -/
+def addAll (g : SparseStore) (l : List (Int × Rat)) : SparseStore :=
+  l.foldl (fun acc p => acc.AddWithCount p.1 p.2) g
+
+theorem merge_loop {S : Type} [StoreI S] : ∀ (l : List (Int × Rat)) (g : SparseStore),
+    SparseStore.MergeWith.loop1 (S := S) (finBins l) g = .done (addAll g l) := by
+  intro l
+  induction l with
+  | nil => intro g; rfl
+  | cons p rest ih =>
+    intro g
+    obtain ⟨i, w⟩ := p
+    simp only [finBins, List.map_cons, SparseStore.MergeWith.loop1, ratOfF64, optL_some]
+    exact ih _
+
+/-- **the fallback loop, exactly**: for every argument type `S`, every argument whose `ForEach` enumerates the
+    finite bins `l`, every receiver (no invariant), every fuel (the loop is structural) -/
+theorem sparse_mergeWith_fold {S : Type} [StoreI S] (fuel : Nat) (g : SparseStore) (o : S)
+    (l : List (Int × Rat)) (hl : StoreI.ForEachList o = finBins l) :
+    SparseStore.MergeWith fuel g o = .ok (addAll g l) := by
+  unfold SparseStore.MergeWith
+  rw [hl, merge_loop]
+  rfl
+
+theorem addAll_rep : ∀ (l : List (Int × Rat)) (g : SparseStore) (c : Content), Rep g c → (∀ p ∈ l, 0 ≤ p.2) →
+    Rep (addAll g l) (c.merge l) := by
+  intro l
+  induction l with
+  | nil => intro g c h _; exact h
+  | cons p rest ih =>
+    intro g c h hp
+    rw [Content.merge_cons]
+    exact ih _ _ (addWithCount_rep h p.1 p.2 (hp p (List.mem_cons_self ..)))
+      (fun q hq => hp q (List.mem_cons_of_mem _ hq))
+
+/-- **merging from any store kind** (C02 / C04): a receiver holding the canonical content `c` ends holding the
+    model's `c.merge l` — the fold of `Content.add` over the argument's bins, which is what `Store.mergeWith`
+    does for a sparse receiver — whatever the type of the argument; weights `≥ 0` (the sparse store's contract,
+    see `GenSparse`) -/
+theorem sparse_mergeWith_any {S : Type} [StoreI S] (fuel : Nat) (g : SparseStore) (c : Content) (h : Rep g c)
+    (o : S) (l : List (Int × Rat)) (hl : StoreI.ForEachList o = finBins l) (hpos : ∀ p ∈ l, 0 ≤ p.2) :
+    SparseStore.MergeWith fuel g o = .ok ⟨c.merge l⟩ ∧ Rep (⟨c.merge l⟩ : SparseStore) (c.merge l) := by
+  have hr := addAll_rep l g c h hpos
+  rw [sparse_mergeWith_fold fuel g o l hl]
+  have : addAll g l = ⟨c.merge l⟩ := by
+    cases hg : addAll g l with
+    | mk cs => rw [hg] at hr; rw [← hr.1]
+  rw [this] at hr ⊢
+  exact ⟨rfl, hr⟩
+
+/-- against the model, argument = any model store (dense, collapsing, sparse, paginated) -/
+theorem sparse_mergeWith_model (fuel : Nat) (g : SparseStore) (c : Content) (h : Rep g c) (o : Store)
+    (l : List (Int × Rat)) (hl : o.binsList = some l) (hpos : ∀ p ∈ l, 0 ≤ p.2) :
+    ∃ g', SparseStore.MergeWith fuel g o = .ok g' ∧ Rep g' (c.merge l) ∧
+      (Store.sp c).mergeWith o = some (.sp g'.counts) := by
+  have hfe : (StoreI.ForEachList o : List (Int × F64)) = finBins l := by
+    show (o.binsList.getD []).map _ = _
+    rw [hl]; rfl
+  obtain ⟨h1, h2⟩ := sparse_mergeWith_any fuel g c h o l hfe hpos
+  refine ⟨_, h1, h2, ?_⟩
+  cases o <;> simp [Store.mergeWith, hl]
+
+/-- a non-finite weight in the enumeration: the regenerated code stops with `.panic` (the translation reads a
+    `float64` weight as a rational; Go would store the `Inf`/`NaN`) — outside the model -/
+theorem sparse_mergeWith_nonfinite {S : Type} [StoreI S] (fuel : Nat) (o : S)
+    (hx : ∃ p ∈ (StoreI.ForEachList o : List (Int × F64)), ratOfF64 p.2 = none) (g : SparseStore) :
+    SparseStore.MergeWith fuel g o = .panic := by
+  unfold SparseStore.MergeWith
+  have : ∀ (l : List (Int × F64)), (∃ p ∈ l, ratOfF64 p.2 = none) → ∀ g : SparseStore,
+      SparseStore.MergeWith.loop1 (S := S) l g = .panic := by
+    intro l
+    induction l with
+    | nil => intro ⟨p, hp, _⟩; cases hp
+    | cons q rest ih =>
+      intro hx g
+      obtain ⟨i, w⟩ := q
+      simp only [SparseStore.MergeWith.loop1]
+      cases hw : ratOfF64 w with
+      | none => rfl
+      | some r =>
+        simp only [optL_some]
+        apply ih
+        obtain ⟨p, hp, hn⟩ := hx
+        rcases List.mem_cons.1 hp with rfl | hp
+        · rw [hw] at hn; cases hn
+        · exact ⟨p, hp, hn⟩
+  rw [this _ hx]
+  rfl
+
+end sparseMerge
+
 end DDS.GenDecodeWrap
